@@ -134,17 +134,18 @@ func (p Proxy) ServeHTTP(w http.ResponseWriter, r *http.Request) (int, error) {
 	outreq, cancel := createUpstreamRequest(w, r)
 	defer cancel()
 
-	// If we have more than one upstream host defined and if retrying is enabled
-	// by setting try_duration to a non-zero value, casket will try to
-	// retry the request at a different host if the first one failed.
+	// If retrying is enabled by setting try_duration to a non-zero value,
+	// casket will retry the request (at a different host if there is one,
+	// else at the same host again) if an attempt failed.
 	//
 	// This requires us to possibly rewind and replay the request body though,
-	// which in turn requires us to buffer the request body first.
+	// which in turn requires us to buffer the request body first; a failed
+	// attempt may have consumed any part of it, also with a single host.
 	//
 	// An unbuffered request is usually preferrable, because it reduces latency
 	// as well as memory usage. Furthermore it enables different kinds of
 	// HTTP streaming applications like gRPC for instance.
-	requiresBuffering := upstream.GetHostCount() > 1 && upstream.GetTryDuration() != 0
+	requiresBuffering := upstream.GetTryDuration() != 0
 
 	if requiresBuffering {
 		body, err := newBufferedBody(outreq.Body)
